@@ -172,8 +172,13 @@ func (d *DefaultClientDispatcher) SendRequest(req RequestBundle) error {
 	if err := d.requestQueue.Push(req); err != nil {
 		return err
 	}
+	// Wake up the message pump. A wake-up that is waiting already covers this request as well: blocking here,
+	// with the read lock held, deadlocks against the pump as soon as Pause, Resume or Stop wait for the lock.
 	d.mutex.RLock()
-	d.requestChannel <- true
+	select {
+	case d.requestChannel <- true:
+	default:
+	}
 	d.mutex.RUnlock()
 	return nil
 }
